@@ -30,8 +30,14 @@ META = {
 }
 
 
-def run(ctx):
+def run(ctx, shared=True):
     repo = ctx.repo
+    if shared:
+        from ..report import reuse
+        from . import c14 as _c14
+        reuse(ctx, lambda c: _c14.run(c, shared=False), ("C14.config", "C14.flow"), "C12file", "replace-don't-merge rule shared with C14: the file an interrupted run leaves must hold the configuration and "
+              "the proposal of this run, loadable by resume_from_file(); an entry-by-entry overwrite keeps flattened keys of an earlier configuration that the loader folds back in, and a write "
+              "that is skipped or raises when the entry exists leaves the earlier one", only=lambda f: f.key.endswith("| delete") or "does not depend on what the file already contains" in f.detail or "is only written when" in f.detail or "is not written before" in f.detail)
     smc = repo.cls(SMC)
     base = repo.cls("aspire.samplers.base:Sampler")
     sample = smc.methods["sample"]
@@ -567,6 +573,8 @@ MUTANTS += [
     M("default cadence is every second iteration", _B, "checkpoint_every = 1\n", "checkpoint_every = 2\n", "C12.default"),
 ]
 MUTANTS += [
+    M("configuration overwritten in place (delete dropped)", _A, "if \"aspire_config\" in h5_file:\n                        del h5_file[\"aspire_config\"]\n                    self.save_config(\n                        h5_file,\n                        include_sampler_config=True,",
+      "self.save_config(\n                        h5_file,\n                        include_sampler_config=True,", "C12file.config", count=2),
     M("blackjax sample() takes the checkpoint options through **kwargs", "src/aspire/samplers/smc/blackjax.py", "checkpoint_every: int | None = None,\n        checkpoint_file_path: str | None = None,\n        resume_from: str | bytes | dict | None = None,\n    ):\n        \"\"\"Sample using BlackJAX SMC.",
       "resume_from: str | bytes | dict | None = None,\n        **kwargs,\n    ):\n        \"\"\"Sample using BlackJAX SMC.", "C12.probe",
       more=[("checkpoint_every=checkpoint_every,\n            checkpoint_file_path=checkpoint_file_path,\n            resume_from=resume_from,\n        )\n\n    def mutate(self, particles, beta, n_steps=None):\n        \"\"\"Mutate particles using BlackJAX", "resume_from=resume_from,\n            **kwargs,\n        )\n\n    def mutate(self, particles, beta, n_steps=None):\n        \"\"\"Mutate particles using BlackJAX")]),
